@@ -98,4 +98,28 @@ Definition all_of_object (t : topology) (tags : list Z) (tg : Z) : option (list 
 Definition all_pulses_idx (t : topology) : list nat :=
   flat_map (fun i => seq (obj_start t i) (length (nth i (tp_by_obj t) []))) (seq 0 (length (tp_by_obj t))).
 
+(* ---------- skeleton of the report (C19): which rows each block has ---------- *)
+Inductive crow := RowE | RowJ (c : Cx) | RowPulse (idx : nat) (c : Cx).
+
+Definition is_junction_pulse (p : pulse) : bool :=
+  negb (Nat.eqb (fst (fst (pu_segs p))) (fst (snd (pu_segs p)))).
+
+Definition end_rows (l : endline) : list crow :=
+  match l with NoLine => [] | ELine => [RowE] | JLine c => [RowJ c] end.
+
+(* numbered rows of one object's block of the current table: its pulses that lie on one object only *)
+Definition numbered_idx (t : topology) (i : nat) : list nat :=
+  map fst (filter (fun kp => negb (is_junction_pulse (snd kp)))
+                  (combine (seq (obj_start t i) (length (nth i (tp_by_obj t) []))) (nth i (tp_by_obj t) []))).
+Definition junction_idx (t : topology) (i : nat) : list nat :=
+  map fst (filter (fun kp => is_junction_pulse (snd kp))
+                  (combine (seq (obj_start t i) (length (nth i (tp_by_obj t) []))) (nth i (tp_by_obj t) []))).
+
+Definition current_block (t : topology) (I : cvec) (i : nat) : list crow :=
+  end_rows (end_line t I i false) ++ map (fun k => RowPulse k (vnth I k)) (numbered_idx t i) ++ end_rows (end_line t I i true).
+
+(* pulse numbers of the geometry rows of one object's block *)
+Definition geometry_block (t : topology) (i : nat) : list nat :=
+  seq (obj_start t i) (length (nth i (tp_by_obj t) [])).
+
 End Report.
